@@ -274,3 +274,19 @@ func kitLevel(tag string, maxOverrides int) (string, map[trustpolicy.ValidationT
 type truststoreType = truststore.Type
 
 var errStoreUnloadable = truststore.TrustStoreError{Msg: "store cannot be loaded"}
+
+//vsym:stub time.Now = kitNow
+
+// kitNow: the verification instant under the engine: the next instant of kitNowSecs, else a fixed one
+// (natively the real clock is used; harnesses place their instants on the same side of it).
+var kitNowSecs []int64
+var kitNowCalls int
+
+func kitNow() time.Time {
+	i := kitNowCalls
+	kitNowCalls++
+	if i < len(kitNowSecs) {
+		return time.Unix(kitNowSecs[i], 0)
+	}
+	return time.Unix(1900000000, 0)
+}
